@@ -354,7 +354,15 @@ func (vt *Model) recover() {
 	vt.Close()
 }
 
+// Resize resizes the terminal and informs the child process
 func (vt *Model) Resize(w int, h int) {
+	vt.mu.Lock()
+	defer vt.mu.Unlock()
+	vt.resizePty(w, h)
+}
+
+// resizePty must be called with the mutex held
+func (vt *Model) resizePty(w int, h int) {
 	vt.resize(w, h)
 	_ = pty.Setsize(vt.pty, &pty.Winsize{
 		Cols: uint16(w),
@@ -559,7 +567,7 @@ func (vt *Model) Draw(win vaxis.Window) {
 	if int(width) != vt.width() || int(height) != vt.height() {
 		win.Width = width
 		win.Height = height
-		vt.Resize(width, height)
+		vt.resizePty(width, height)
 	}
 	for row := 0; row < vt.height(); row += 1 {
 		for col := 0; col < vt.width(); {
